@@ -118,8 +118,9 @@ class _State:
         # make durations tunable
         if self.duration is not None:
             duration_attr = name + "_duration"
-            # don't create it twice (in case of inheritance overriding)
-            if getattr(owner, duration_attr, None) is None:
+            # don't replace one the class body defines itself; a state that
+            # overrides an inherited one gets a tunable with its own duration
+            if duration_attr not in owner.__dict__:
                 setattr(
                     owner,
                     duration_attr,
